@@ -8,8 +8,7 @@ PROP = "C04"
 LEVEL = "exploration"
 SHARDS = {"quick": 8, "thorough": 16}
 TIMEOUT = {"quick": 900, "thorough": 7200}
-REQUIRED = {"encode": 2000, "reject_size": 100, "whitespace_hex": 50, "bits_api": 10, "wordlist": 1,
-            "probe.mnemonic_from_entropy": 500}
+REQUIRED = {"encode": 2000, "reject_size": 100, "whitespace_hex": 50, "bits_api": 10, "wordlist": 1}
 ANCHORS = ['bip39:mnemonic_from_entropy', 'bip39:mnemonic_from_entropy_bits', 'base_wallet:BaseWallet.from_entropy_hex']
 RULE = ("per allowed size: all-zero, all-one, walking-one and walking-zero over EVERY bit position (exhaustive, 2x960), "
         "1..ENT/8-1 leading zero bytes, checksum-straddling patterns, random; rejection: every other byte length 0..64, odd "
@@ -167,7 +166,7 @@ def install_probes(ctx):
         ctx.judge("probe.mnemonic_from_entropy", not bad, {"hex": hx}, rb39.mnemonic(ent), bad, cls="probe|%d" % len(ent),
                   mech="C04.probe." + (bad[0][0] if bad else "") if clean else "C04.whitespace_hex.lossy")
 
-    h = probes.observe_function(inst, b39, "mnemonic_from_entropy", on_mfe)
+    h = probes.try_install(ctx, "observe mnemonic_from_entropy", probes.observe_function, inst, b39, "mnemonic_from_entropy", on_mfe) or []
     ctx.extra["mnemonic_from_entropy_holders"] = ["%s.%s" % x for x in h]
     return inst
 
